@@ -19,7 +19,8 @@ PAT_RULE = ('queries rendered from generated ASTs (all six term kinds x negation
 PROPS = {
     'C01': dict(
         areas=[('pat', 10000, 1500000), ('filter', 6000, 600000)],
-        rule=PAT_RULE,
+        rule=PAT_RULE
+             '; terms also as the accent-free lower-case spelling of text cut from a line',
         trusted=['Go unicode tables (dumped per run)', 'in-process fzf.Run bypasses the byte-level reader (C06 covers it)',
                  'term-level matching is judged by the C02 oracle (Query.sat uses isSubseq / occurrences, not the matchers)'],
         level_text='Lean 4 theorem for every pattern, line and match-function behaviour: an extended pattern matches iff every '
@@ -203,7 +204,8 @@ PROPS = {
              'without progress, data+EOF and data+error outside the OS quantifier), both delimiters; large generated streams of '
              '65535..300000 bytes with records of 0..140000 bytes read in steps of 1..70000 bytes (64 KiB buffer and 128 KiB slab '
              'boundaries +-1); chunk-list scripts with --tail snapshots; filter runs with --header-lines / --tail; non-trivial = '
-             '>= 2 records delivered in >= 3 reads, or a multi-chunk snapshot; distinct = distinct case lines',
+             '>= 2 records delivered in >= 3 reads, or a multi-chunk snapshot; distinct = distinct case lines'
+             '; the real fzf with --header-lines=N and one or two reloads (convergence sessions): at rest the items are the records of the loaded stream without its first N',
         trusted=['the OS never returns data together with an error (hypothesis OSReads; the excluded point is exercised, finding F4)',
                  'bytes.IndexByte', 'process-level piping through a real pipe is part of the C07 driver'],
         level_text='Lean 4 theorem for every OS-style read sequence (any number and sizes of reads, any cut positions): Reader.feed '
@@ -391,7 +393,8 @@ PROPS = {
              'non-numeric, missing) and X-API-Key (exact, prefix, extended, upper-cased, empty, missing) headers in random order '
              'and case, junk headers, missing blank line, action-list bodies (valid, unknown, empty, with CR/LF), early close, '
              '70 000-byte lines; every request is written in seeded chunkings (whole, byte by byte, random cuts) and then closed; '
-             'non-trivial = a request that reaches the key check (GET / POST accepted or 401); distinct = distinct case lines',
+             'non-trivial = a request that reaches the key check (GET / POST accepted or 401); distinct = distinct case lines'
+             '; every form of a --listen address (HOST:PORT, :PORT, PORT, malformed), with and without FZF_API_KEY, through parseListenAddress and the real startHttpServer: without a key a started listener is bound to a loopback address',
         trusted=['net.Pipe as the connection (the real TCP socket and the 10 s read deadline are exercised by the tmux driver only)',
                  'bufio.Scanner (its buffer management is modelled) ', 'parseSingleActionList is external here (C17); the check '
                  'compares what the server delivers with what --bind yields for the same text'],
@@ -412,7 +415,8 @@ PROPS = {
              'directory and to a file; all combinations of file / dir / hidden / follow, skip lists by base name, by path, by path '
              'suffix and with a leading separator, incl. a path skip next to a directory whose name only ends with its first '
              'component; roots ".", a sub-directory, and "." / ".." from a working directory inside the tree; outputs compared as sorted multisets; '
-             'non-trivial = at least two paths listed and at least one entry not listed; distinct = distinct case lines',
+             'non-trivial = at least two paths listed and at least one entry not listed; distinct = distinct case lines'
+             '; roots under other spellings (./d, d/, d//, d/../d, d/./e, d/e/.., .//d)',
         trusted=['fastwalk visits every entry below a root once, parents first, and honours SkipDir (its parallel order is not modelled: '
                  'outputs are compared sorted)', 'the file system of the sandbox'],
         level_text='Lean 4 theorems about the walker model: a pruned directory (hidden without `hidden`, or matched by a skip rule) '
